@@ -71,7 +71,10 @@ def gen(x):
         w.append("def %s : List String := [%s]" % (name, ", ".join(lean_str(p) for p in ps)))
         return m
     fmt("diagFmtDrumMissing", r'get_subroutine\(param,\s*1,\s*0\);.*?error\(stringf\("([^"]*)",\s*param\)', hook, "mdsdrv.cpp:drum subroutine message", ["%d"])
-    m = x.need(re.search(r'if\(in_drum_mode\)\s*\{\s*if\(param < 0 \|\| param > (\d+)\)\s*error\(stringf\("([^"]*)",\s*param,\s*(\d+)\)', hook, flags=re.S),
+    m0 = x.need(re.search(r'if\(in_drum_mode\)\s*\{\s*if\(get_stack_type\(\)\s*==\s*Player_Stack::LOOP\)\s*error\("([^"]*)"\);\s*if\(param < 0', hook, flags=re.S),
+                "mdsdrv.cpp:drum routine note inside a loop is refused before the range test")
+    w.append("def diagMsgDrumNoteInLoop : String := %s" % lean_str(c_unescape(m0.group(1))))
+    m = x.need(re.search(r'if\(in_drum_mode\)\s*\{.*?if\(param < 0 \|\| param > (\d+)\)\s*error\(stringf\("([^"]*)",\s*param,\s*(\d+)\)', hook, flags=re.S),
                "mdsdrv.cpp:drum note range")
     if m.group(1) != m.group(3):
         raise x.ShapeError("mdsdrv.cpp:drum note range limit differs from the printed limit")
